@@ -1,8 +1,207 @@
-(* C12b - under construction *)
-From Coq Require Import NArith List.
+(* C12b - the clause recogniser of cobol_parser (CLAUSES / clause_pattern / clause_dict): every entry the
+   specification's printer can print is recognised, in every allowed spelling.  An additional engine for property C12
+   (respelling a copybook changes nothing) that also closes the clause-recognition gap of C07.
+   Only the property theorems, each closed by an exact lemma of Proofs/ClausesP.v.
+
+   Model/Clauses.v   clause_dict s = what cobol_parser.clause_dict returns on the text s (the sentence between the level
+                     number and the period), for EVERY string s: Some (Ok r) returned the dictionary r, Some (Err e) raised
+                     e (only normalize_picture raises), None = the model ran out of fuel (never: the theorems conclude Some
+                     or follow gen_normalize).  The pattern's variable parts are read from the source on every run
+                     (Gen/ClausesParams.v): dropping a usage word, re-ordering alternatives or synonyms, making an optional
+                     word mandatory, removing IGNORECASE or changing SPACE / NAME changes the model and breaks these proofs.
+   Spec/Clauses.v    clause: the clauses of a data description entry (the data name or FILLER first); spelling: per clause
+                     the optional words, synonyms, one letter-case mask per reserved word, one separator per joint, and the
+                     separator after the clause; print_items cs sps: the text; expected cs sps: the dictionary a correct
+                     recogniser returns (texts exactly as written); abstract cs: its spelling-independent content;
+                     normal: from as-written to content; printable cs sps: the domain (one clause of each kind, name first,
+                     well-formed names / numbers / pictures / literals / separators, and outside the trigger sets of the
+                     known findings: ZERO not ZEROS, SIGN with SEPARATE, no KEY / INDEXED BY phrase, blanks after a picture
+                     or an unquoted VALUE word, something after a JUSTIFIED without RIGHT).
+   What the dictionary KEEPS AS WRITTEN (letter case and inner separators of the source): usage, filler, blank,
+   justified, sign, sign_sep, synch; names, numbers, pictures and literals are kept verbatim.  EXTERNAL, GLOBAL,
+   JUSTIFIED without RIGHT, SYNCHRONIZED without a side leave no key at all. *)
+From Coq Require Import NArith List Bool Permutation.
 Import ListNotations.
 Require Import SR.Base.Res SR.Spec.Clauses SR.Model.Clauses SR.Proofs.ClausesP.
 Open Scope N_scope.
 
-Example C12b_example : exists r, clause_dict [65; 32; 80; 73; 67; 32; 88] = Some (Ok r).
-Proof. eexists. vm_compute. reflexivity. Qed.
+(* ---- the main theorem: for every entry and every spelling in the domain, clause_dict returns exactly the expected
+        dictionary with every text as written, and the picture goes through normalize_picture ---- *)
+Theorem C12b_clause_dict_printer : forall (cs : list clause) (sps : spelling), printable cs sps = true ->
+  clause_dict (print_items cs sps) = result_for (expected cs sps).
+Proof. exact clause_dict_printer. Qed.
+Print Assumptions C12b_clause_dict_printer.
+
+(* the content of the expected dictionary does not depend on the spelling *)
+Theorem C12b_expected_content : forall (cs : list clause) (sps : spelling), items_ok cs sps = true ->
+  normal (expected cs sps) = abstract cs.
+Proof. exact expected_content. Qed.
+Print Assumptions C12b_expected_content.
+
+(* ---- respelling: two printings of the same clause list in two spellings (optional words, synonyms, separators,
+        letter case) give dictionaries with the same content and the same parsed picture ---- *)
+Theorem C12b_respelling_partial : forall (cs : list clause) (sps sps' : spelling) (r r' : clause_record),
+  printable cs sps = true -> printable cs sps' = true ->
+  clause_dict (print_items cs sps) = Some (Ok r) -> clause_dict (print_items cs sps') = Some (Ok r') ->
+  normal (codes (cr_dict r)) = abstract cs /\ normal (codes (cr_dict r')) = abstract cs /\ cr_parsed r = cr_parsed r'.
+Proof. exact respelling_same_order. Qed.
+Print Assumptions C12b_respelling_partial.
+
+(* the full statement also lets the two printings order the clauses differently (the data name staying first); the main
+   theorem covers every order, what is not proved is that [abstract] is invariant under permutation *)
+Definition C12b_respelling_statement : Prop :=
+  forall (cs cs' : list clause) (sps sps' : spelling) (r r' : clause_record),
+  Permutation cs cs' -> printable cs sps = true -> printable cs' sps' = true ->
+  clause_dict (print_items cs sps) = Some (Ok r) -> clause_dict (print_items cs' sps') = Some (Ok r') ->
+  normal (codes (cr_dict r)) = normal (codes (cr_dict r')) /\ cr_parsed r = cr_parsed r'.
+
+(* ---- token level ---- *)
+(* a reserved word of the pattern, printed in any letter case, is matched by its literal *)
+Theorem C12b_keyword_any_case : forall (w : str) (m : list bool) (rest : list N), kword w = true ->
+  lit w (cased m w ++ rest) = Some rest.
+Proof. exact lit_cased. Qed.
+Print Assumptions C12b_keyword_any_case.
+
+(* every spelling of every usage family, in any letter case, is taken whole by the usage alternation *)
+Theorem C12b_usage_word : forall (fam i : N) (m : list bool) (rest : list N), follow rest ->
+  usage_at (cased m (usage_word fam i) ++ rest) = Some ([(KUsage, cased m (usage_word fam i))], rest).
+Proof. intros. apply usage_at_printed; [apply usage_word_in|assumption]. Qed.
+Print Assumptions C12b_usage_word.
+
+(* a data name of the domain is matched by no keyword alternative *)
+Theorem C12b_name_no_keyword : forall (n : str) (rest : list N), name_ok n = true -> follow rest ->
+  forall id, In id keyword_alts -> alt id (n ++ rest) = ANo.
+Proof. exact name_alts. Qed.
+Print Assumptions C12b_name_no_keyword.
+
+(* the KEY / INDEXED BY tail takes nothing when the next word is none of its words *)
+Theorem C12b_key_tail_clean : forall rest : list N, tail_ok rest -> key_tail rest = Some rest.
+Proof. exact key_tail_clean. Qed.
+Print Assumptions C12b_key_tail_clean.
+
+(* ---- refutations: outside the domain the faithful model returns something else; one witness per finding ---- *)
+Definition name_of (o : option (res clause_record)) : option (list N) :=
+  match o with Some (Ok r) => get KName (cr_dict r) | _ => None end.
+Definition key_of (k : key) (o : option (res clause_record)) : option (list N) :=
+  match o with Some (Ok r) => get k (cr_dict r) | _ => None end.
+
+Definition sp0 : cspell := {| ch := []; masks := []; seps := [] |}.
+Definition blank1 : str := [32].
+
+(* 1  COMPANY PIC X(5): the name is cut to ANY, usage COMP appears *)
+Definition w_keyword : list clause := [CName [67; 79; 77; 80; 65; 78; 89]; CPicture [88; 40; 53; 41]].
+Theorem C12b_refuted_keyword_prefix :
+  printable w_keyword [] = false /\
+  name_of (clause_dict (print_items w_keyword [])) = Some [65; 78; 89] /\
+  key_of KUsage (clause_dict (print_items w_keyword [])) = Some [67; 79; 77; 80] /\
+  lookup 14 (expected w_keyword []) = Some [67; 79; 77; 80; 65; 78; 89] /\ lookup 11 (expected w_keyword []) = None.
+Proof. vm_compute. repeat split; reflexivity. Qed.
+Print Assumptions C12b_refuted_keyword_prefix.
+
+(* 2  A PIC X(3); DISPLAY: the semicolon is read into the picture, normalize_picture raises ValueError *)
+Definition w_glued : list clause := [CName [65]; CPicture [88; 40; 51; 41]; CUsage 0].
+Definition s_glued : spelling := [(sp0, blank1); (sp0, [59; 32]); (sp0, [])].
+Theorem C12b_refuted_separator_after_picture :
+  printable w_glued s_glued = false /\ printable w_glued [] = true /\
+  clause_dict (print_items w_glued s_glued) = Some (Err ValueError) /\
+  exists r, clause_dict (print_items w_glued []) = Some (Ok r).
+Proof. split; [vm_compute; reflexivity|]. split; [vm_compute; reflexivity|]. split; [vm_compute; reflexivity|]. eexists. vm_compute. reflexivity. Qed.
+Print Assumptions C12b_refuted_separator_after_picture.
+
+(* 3  T OCCURS 3 TIMES INDEXED BY I-1: the entry is named I-1 *)
+Definition w_indexed : list clause :=
+  [CName [84]; COccurs [51] (Some {| ip_key := None; ip_idx := [[73; 45; 49]] |})].
+Definition s_indexed : spelling := [(sp0, blank1); ({| ch := [1; 0; 0; 0; 1]; masks := []; seps := [] |}, [])].
+Theorem C12b_refuted_indexed_by :
+  printable w_indexed s_indexed = false /\
+  name_of (clause_dict (print_items w_indexed s_indexed)) = Some [73; 45; 49] /\
+  lookup 14 (expected w_indexed s_indexed) = Some [84].
+Proof. vm_compute. repeat split; reflexivity. Qed.
+Print Assumptions C12b_refuted_indexed_by.
+
+(* 3' A OCCURS 5 ASCENDING KEY IS K INDEXED BY I PIC X(3): the picture clause is swallowed as index names *)
+Definition w_after_indexed : list clause :=
+  [CName [65]; COccurs [53] (Some {| ip_key := Some (true, [75]); ip_idx := [[73]] |}); CPicture [88; 40; 51; 41]].
+Definition s_after_indexed : spelling :=
+  [(sp0, blank1); ({| ch := [0; 0; 1; 1; 1]; masks := []; seps := [] |}, blank1); (sp0, [])].
+Theorem C12b_refuted_clause_after_indexed_by :
+  printable w_after_indexed s_after_indexed = false /\
+  key_of KPicture (clause_dict (print_items w_after_indexed s_after_indexed)) = None /\
+  lookup 7 (expected w_after_indexed s_after_indexed) = Some [88; 40; 51; 41].
+Proof. vm_compute. repeat split; reflexivity. Qed.
+Print Assumptions C12b_refuted_clause_after_indexed_by.
+
+(* 4  A PIC X BLANK WHEN ZEROS: blank is ZERO and the entry is named S *)
+Definition w_zeros : list clause := [CName [65]; CPicture [88]; CBlank].
+Definition s_zeros : spelling := [(sp0, blank1); (sp0, blank1); ({| ch := [1; 1]; masks := []; seps := [] |}, [])].
+Theorem C12b_refuted_blank_zeros :
+  printable w_zeros s_zeros = false /\
+  name_of (clause_dict (print_items w_zeros s_zeros)) = Some [83] /\
+  key_of KBlank (clause_dict (print_items w_zeros s_zeros)) = Some K_ZERO /\
+  lookup 14 (expected w_zeros s_zeros) = Some [65] /\ lookup 1 (expected w_zeros s_zeros) = Some K_ZEROS.
+Proof. vm_compute. repeat split; reflexivity. Qed.
+Print Assumptions C12b_refuted_blank_zeros.
+
+(* 5  A PIC X JUSTIFIED: the entry is named JUSTIFIED *)
+Definition w_just : list clause := [CName [65]; CPicture [88]; CJust false].
+Definition s_just : spelling := [(sp0, blank1); (sp0, blank1); (sp0, [])].
+Theorem C12b_refuted_justified_last :
+  printable w_just s_just = false /\
+  name_of (clause_dict (print_items w_just s_just)) = Some K_JUSTIFIED /\
+  lookup 14 (expected w_just s_just) = Some [65] /\
+  (* with a blank before the period the same entry is in the domain *)
+  printable w_just [(sp0, blank1); (sp0, blank1); (sp0, blank1)] = true.
+Proof. vm_compute. repeat split; reflexivity. Qed.
+Print Assumptions C12b_refuted_justified_last.
+
+(* 6  A PIC S9 SIGN LEADING: the entry is named LEADING *)
+Definition w_sign : list clause := [CName [65]; CPicture [83; 57]; CSign true false].
+Definition s_sign : spelling := [(sp0, blank1); (sp0, blank1); ({| ch := [1]; masks := []; seps := [] |}, [])].
+Theorem C12b_refuted_sign_without_separate :
+  printable w_sign s_sign = false /\
+  name_of (clause_dict (print_items w_sign s_sign)) = Some K_LEADING /\
+  key_of KSign (clause_dict (print_items w_sign s_sign)) = None /\
+  lookup 14 (expected w_sign s_sign) = Some [65] /\ lookup 8 (expected w_sign s_sign) = Some K_LEADING.
+Proof. vm_compute. repeat split; reflexivity. Qed.
+Print Assumptions C12b_refuted_sign_without_separate.
+
+(* 7  filler PIC X: the dictionary is as expected (the word as written), but DDE.__init__ then names the item filler
+      instead of FILLER-1 *)
+Definition w_filler : list clause := [CFiller; CPicture [88]].
+Definition s_filler : spelling := [({| ch := []; masks := [[true; true; true; true; true; true]]; seps := [] |}, blank1); (sp0, [])].
+Theorem C12b_refuted_filler_case :
+  printable w_filler s_filler = true /\ in_domain w_filler s_filler = false /\
+  (exists r, clause_dict (print_items w_filler s_filler) = Some (Ok r) /\
+             dde_unique (cr_dict r) = [102; 105; 108; 108; 101; 114]) /\
+  spec_unique_name w_filler = K_FILLER ++ [45; 49].
+Proof. split; [vm_compute; reflexivity|]. split; [vm_compute; reflexivity|]. split; [eexists; vm_compute; split; reflexivity|reflexivity]. Qed.
+Print Assumptions C12b_refuted_filler_case.
+
+(* so the main statement without its domain is false *)
+Theorem C12b_unguarded_refuted :
+  ~ (forall (cs : list clause) (sps : spelling), clause_dict (print_items cs sps) = result_for (expected cs sps)).
+Proof.
+  intros H. specialize (H w_keyword []). apply (f_equal name_of) in H. vm_compute in H. discriminate.
+Qed.
+Print Assumptions C12b_unguarded_refuted.
+
+(* ---- non-vacuity: an entry with many clauses in a mixed spelling is in the domain; what is returned ---- *)
+(* CUST-NO, pIc  iS S9(5)V99 usage IS comp-3 <newline> occurs 5 TIMES value 'A B'; global *)
+Definition ex_cs : list clause :=
+  [CName [67; 85; 83; 84; 45; 78; 79]; CPicture [83; 57; 40; 53; 41; 86; 57; 57]; CUsage 2; COccurs [53] None;
+   CValue [39; 65; 32; 66; 39]; CGlobal].
+Definition ex_sps : spelling :=
+  [(sp0, [44; 10; 32; 32]);
+   ({| ch := [0; 1]; masks := [[true; false; true]; [true; false]]; seps := [[32; 32]; [32]] |}, blank1);
+   ({| ch := [2; 0]; masks := [[true; true; true; true; true]; []; [true; true; true; true; true; true]]; seps := [] |}, [10]);
+   ({| ch := [1]; masks := [[true; true; true; true; true; true]]; seps := [] |}, blank1);
+   ({| ch := []; masks := [[true; true; true; true; true]]; seps := [] |}, [59; 32]);
+   ({| ch := []; masks := [[true; true; true; true; true; true]]; seps := [] |}, [])].
+Example C12b_example :
+  printable ex_cs ex_sps = true /\
+  key_of KUsage (clause_dict (print_items ex_cs ex_sps)) = Some [99; 111; 109; 112; 45; 51] /\       (* comp-3, as written *)
+  key_of KName (clause_dict (print_items ex_cs ex_sps)) = Some [67; 85; 83; 84; 45; 78; 79] /\
+  key_of KOccurs (clause_dict (print_items ex_cs ex_sps)) = Some [53] /\
+  key_of KValue (clause_dict (print_items ex_cs ex_sps)) = Some [39; 65; 32; 66; 39] /\
+  lookup 11 (abstract ex_cs) = Some K_COMP_3.
+Proof. vm_compute. repeat split; reflexivity. Qed.
